@@ -248,7 +248,6 @@ func (server *GripServer) BulkAdd(stream gripql.Edit_BulkAddServer) error {
 		// create a BulkAdd stream per graph
 		// close and switch when a new graph is encountered
 		if element.Graph != graphName {
-			close(elementStream)
 			gdb, err := server.getGraphDB(element.Graph)
 			if err != nil {
 				errorCount++
@@ -262,6 +261,9 @@ func (server *GripServer) BulkAdd(stream gripql.Edit_BulkAddServer) error {
 				continue
 			}
 
+			// only now switch streams: an element that names an unknown graph is
+			// skipped and must leave the current graph's stream open
+			close(elementStream)
 			graphName = element.Graph
 			elementStream = make(chan *gdbi.GraphElement, 100)
 
